@@ -197,15 +197,21 @@ def addOption (name value : String) (line : Nat) : V Unit := modify (addOptionS 
 def trimQuotes (s : String) : String :=
   String.ofList (((s.toList.dropWhile (· = '"')).reverse.dropWhile (· = '"')).reverse)
 
+/-- `decimalKey`: an integer key without leading zeros (string keys are kept as written) -/
+def keyText (t : Tok) : String :=
+  if t.kind = .digits then
+    (let s := String.ofList (t.text.toList.dropWhile (· = '0')); if s.isEmpty then "0" else s)
+  else t.text
+
 /-- `VisitMatchPair` (digits of a list first, then its strings) -/
 def pairsOfMatch (d : MatchDecl) : List MPair :=
   (d.pairs.map fun p =>
     match p.key with
-    | .single t => [{ key := t.text, value := p.target.text, line := p.key.start.line : MPair }]
+    | .single t => [{ key := keyText t, value := p.target.text, line := p.key.start.line : MPair }]
     | .list _ f rest _ =>
       let items := f :: rest.map (·.2)
       ((items.filter (·.kind = .digits)) ++ (items.filter (·.kind = .string))).map fun t =>
-        { key := t.text, value := p.target.text, line := t.line }).flatten
+        { key := keyText t, value := p.target.text, line := t.line }).flatten
 
 def docOf : Option Tok → String
   | some t => t.text
